@@ -44,6 +44,9 @@ type funcHints struct {
 	// a.cfg.MinInterval). If such a temporary is later removed, a contract that
 	// names it is read as that path.
 	Defs map[string]string `json:"defs,omitempty"`
+	// Closures: fingerprints of the function literals of this function, in
+	// source order (closures.go).
+	Closures []closureHint `json:"closures,omitempty"`
 }
 
 type rangeHint struct {
@@ -76,6 +79,7 @@ func hintsOf(fn *ssa.Function) *funcHints {
 	for _, fv := range fn.FreeVars {
 		h.FreeVars = append(h.FreeVars, fv.Name())
 	}
+	h.Closures = closureHintsOf(fn)
 	syn := fn.Syntax()
 	var info *types.Info
 	if fn.Pkg != nil {
@@ -258,6 +262,12 @@ func writeHints(p *Program, cs *Contracts, verif string) error {
 	for name := range cs.Funcs {
 		if fn := p.funcs[name]; fn != nil {
 			out[name] = hintsOf(fn)
+			// the enclosing functions of a closure under contract record their literals too
+			for par := fn.Parent(); par != nil; par = par.Parent() {
+				if _, ok := out[shortName(par)]; !ok {
+					out[shortName(par)] = hintsOf(par)
+				}
+			}
 		}
 	}
 	b, err := json.MarshalIndent(out, "", " ")
